@@ -68,6 +68,16 @@ impl Network {
     #[verifier::external_body]
     pub fn params(&self) -> (r: VxParams) ensures r == spec_params(*self) { unimplemented!() }
 }
+// `a > b` / `a < b` on targets (PartialOrd, numeric order of the 256-bit values)
+impl PartialOrd for Target { #[verifier::external_body] fn partial_cmp(&self, other: &Self) -> Option<core::cmp::Ordering> { unimplemented!() } }
+impl vstd::std_specs::cmp::PartialOrdSpecImpl for Target {
+    open spec fn obeys_partial_cmp_spec() -> bool { true }
+    open spec fn partial_cmp_spec(&self, other: &Self) -> Option<core::cmp::Ordering> {
+        if target_val(*self) < target_val(*other) { Some(core::cmp::Ordering::Less) }
+        else if target_val(*self) > target_val(*other) { Some(core::cmp::Ordering::Greater) }
+        else { Some(core::cmp::Ordering::Equal) }
+    }
+}
 impl Target {
     #[verifier::external_body]
     pub fn gt(&self, o: &Target) -> (r: bool) ensures r == (target_val(*self) > target_val(*o)) { unimplemented!() }
